@@ -127,6 +127,33 @@ def evaluate(case):
     return OK(outcome=table_hash(base), nontrivial=nt, evals=nev)
 
 
+EXTREME = [2.0 ** -140, 2.0 ** -300, 2.0 ** 130, 2.0 ** 300]    # outside the float32 range (and far outside float16's)
+
+
+def eval_extreme_scale(case):
+    """Recordings of every size class scaled by factors beyond the single-precision range: a reduced-precision or rescaled intermediate
+    (taken for speed or memory on big inputs) cannot follow them."""
+    w, devs = case[0], tuple(case[1])
+    o = S.resolve(devs)
+    sig = S.make_signal(w, o)
+    from bycycle.features import compute_features
+    kw = S.call_kwargs(o)
+    kw['return_samples'] = True
+    base = compute_features(np.array(sig), o['fs'], o['f_range'], **kw)
+    nev = 1
+    for a in EXTREME:
+        d = compute_features(np.array(sig) * a, o['fs'], o['f_range'], **kw)
+        nev += 1
+        exp = base.copy()
+        for c in VOLT:
+            exp[c] = exp[c] * a
+        dd = diff_tables(d, exp, exact=True)
+        if dd:
+            return VIOL({'kind': 'scale', 'factor': a, 'method': o['burst_method'], 'centre': o['center_extrema'], 'samples': len(sig)},
+                        'scaling a %d-sample recording by 2**%d is not covariant: %s' % (len(sig), int(np.log2(a)), dd), evals=nev)
+    return OK(outcome=('extreme', w, table_hash(base)), nontrivial=bool(base['is_burst'].any()), evals=nev)
+
+
 def eval_after_other_rate(case):
     """Rate covariance AFTER an unrelated analysis of the same band at an 8 x lower sampling rate in the same process, for every
     start offset of one period (every phase of the rhythm at the recording edges)."""
@@ -198,6 +225,9 @@ def spaces(tier, seed):
     out.append(ProductSpace('after-other-rate-x-offsets', [list(range(50)), ['peak', 'trough']], eval_after_other_rate,
                             describe='3000-sample excerpts at each of 50 start offsets: rate covariance after an analysis of the same band at an 8 x lower rate'))
     from bcmc.explore import ListSpace
+    xc = S.long_cases(['@G', '@E'], [(), ('amp',)]) + [['abdab', ()], ['abdab', ('amp', 'trough')]]
+    out.append(ListSpace('extreme-scales', xc, eval_extreme_scale,
+                         describe='a 300000-sample and a 6000-sample recording and one word x both methods x scale factors 2**-300, 2**-140, 2**130, 2**300'))
     out.append(ListSpace('long-recordings', S.long_cases(['@B', '@E'], [(), ('amp',)]) + S.long_cases(['@C'], [('trough',)]), evaluate,
                          describe='long real-valued recordings (fs 1000 band 13-30, fs 500 band 8-12, fs 1017.25) x scale and rate factors'))
     if tier != 'quick':
